@@ -32,6 +32,8 @@ def acct_class(case):
 
 def sig_of(case, clauses):
     # violation signature: failing clause(s) (they name the branch and the signer position) + state of the first signer
+    if all(c.startswith("exact.") for c in clauses):
+        return "+".join(sorted(clauses))      # what the signing scheme leaves unsigned does not depend on the account state
     return "%s:%s" % ("+".join(sorted(clauses)), acct_class(case))
 
 
@@ -56,14 +58,16 @@ def run(R):
     ]
     R.assume += [
         "the ante chain is projected onto ValidateBasic, SetPubKey, SigGasConsume, SigVerification, IncrementSequence; the other decorators can only reject and are kept passing by the harness (fees in range, funded accounts)",
-        "addresses are 20 bytes (common.BytesToAddress crops longer ones); multisig keys / MultiSignatureData are outside the model (SDK code, Ethereum path rejects them)",
+        "addresses are 20 bytes (common.BytesToAddress crops longer ones); multisig = LegacyAminoPubKey over secp256k1 members with uniform member sign mode (its verification is the verify oracle; nested multisigs are not generated)",
+        "message types: every registered sdk.Msg implementation that can be instantiated generically (string/address fields := signer; ValidateBasic passes; an honest DIRECT tx passes the ante handler) -- 89 of 109 on the current tree, at least one per module except evidence; the rest of the matrix uses bank MsgSend, gov MsgRegisterIdentityRecords, tokens MsgEthereumTx",
+        "'exactly that transaction': t_id identifies body + auth-info bytes; EIP-712 / raw Ethereum signatures cover the message (resp. the raw tx) and the sequence only -- theorem C02_exact_refuted_*, listed findings exact.*",
         "the sign document is abstracted to (mode, chain id, account number, sequence, identity of body+auth-info bytes); the oracle table is the real graph on the documents that occur",
         "replay theorem: fewer than 2^64 accepted transactions between the two submissions (uint64 sequence wrap)",
     ]
     R.coq_files(FILES)
     R.coq_property()
     R.audit()
-    n = 250 if R.tier == "quick" else 6000
+    n = 250 if R.tier == "quick" else 5000
     obs = observe(R, n)
     total = 0
     if obs:
